@@ -129,8 +129,8 @@ def norm_vs_importlib(dots: int, tail: str, depth: int, dots2: int, h0: bool, h1
     with fs(files):
         p = Project(['/r'])
         res = []
-        # second call from a sibling file exercises the per-directory cache
-        for fn, d in ((filename, dots), (other, dots2), (filename, dots)):
+        # the same file with another level, then a sibling file: both go through the memo of the first call
+        for fn, d in ((filename, dots), (filename, dots2), (other, dots2), (filename, dots)):
             name = '.' * d + tail
             try:
                 got = p.norm_package(name, fn)
@@ -143,7 +143,7 @@ def norm_vs_importlib(dots: int, tail: str, depth: int, dots2: int, h0: bool, h1
             res.append(got == want)
     if TWIN[0]:
         return False
-    return res[0] and res[1] and res[2]
+    return res[0] and res[1] and res[2] and res[3]
 
 
 # ------------------------------------------------------------------ (b),(c) get_module / list_packages
